@@ -388,3 +388,39 @@ def int_point(ctx, family, param, dim, index, as_list):
     if has_p2:
         ctx.eq('partial2 at an integer-typed point == at the float point', f.partial2(ti, index, index), f.partial2(tf, index, index), **kw)
         ctx.eq('hessian at an integer-typed point == at the float point', f.hessian(ti), f.hessian(tf), **kw)
+
+
+# ------------------------------------------------------------ function objects carry no state between calls
+@scenario('C14', 'history', lambda tier: [{'family': fam, 'param': p} for fam in FAMILIES for p in ([2] if fam == 'monomial' else [[2, 2.0]] if fam == 'legendre' else [None])])
+def history(ctx, family, param):
+    """a function object evaluated at a point, then at the SAME array object after it was changed in place (an integration or finite-difference loop),
+    then at another array, returns each time what a fresh object returns at a fresh array: value, partial, gradient, Hessian"""
+    tdt = ctx.R.transform
+    if ctx.mode == 'tv':
+        raise SkipTV()
+    dim, index = 2, 1
+    f, approx = _make(ctx, family, tdt, index, dim, param)
+    g, _ = _make(ctx, family, tdt, index, dim, param)          # fresh object with the same parameters: the reference
+    has_p2 = family != 'pgauss'
+
+    def point(name):
+        if ctx.sym:
+            from symtt.array import asobj
+            a = asobj([ctx.scalar('%s%d' % (name, i)) for i in range(dim)])
+            a.kind = 'f'
+            return a
+        return np.array([ctx.scalar('%s%d' % (name, i)) for i in range(dim)], dtype=float)
+    t, u = point('t'), point('u')
+    delta = ctx.scalar('delta')
+    first = f(t)                                                # noqa: F841  (warms whatever the object may remember)
+    f.partial(t, index)
+    t[index] = t[index] + delta                                 # the caller moves the point in place
+    t2 = point('t')
+    t2[index] = t2[index] + delta
+    seq = [('the same array after an in-place change', t, t2), ('another array', u, point('u')), ('the first array again', t, t2)]
+    for what, a, fresh in seq:
+        ctx.eq('value at %s == value of a fresh object' % what, f(a), g(fresh))
+        ctx.eq('partial at %s == partial of a fresh object' % what, f.partial(a, index), g.partial(fresh, index))
+        ctx.eq('gradient at %s == gradient of a fresh object' % what, f.gradient(a), g.gradient(fresh))
+        if has_p2:
+            ctx.eq('hessian at %s == hessian of a fresh object' % what, f.hessian(a), g.hessian(fresh))
